@@ -6,7 +6,7 @@ for m in sys.argv[1].split(","):
     importlib.import_module("contracts." + m)
 from pyvc.runner import generate_all, discharge
 sel = [a for a in sys.argv[2:] if not a.startswith("-")]
-keys = [k for k in list(W.contracts) + list(W.lemmas) if (not sel or any(s in k for s in sel)) and not (k in W.contracts and W.contracts[k].trusted)]
+keys = [k for k in list(W.contracts) + list(W.lemmas) + list(W.analyses) if (not sel or any(s in k for s in sel)) and not (k in W.contracts and W.contracts[k].trusted)]
 t0 = time.time()
 reps = discharge(generate_all(W, keys))
 for r in reps:
